@@ -376,12 +376,17 @@ impl<'c, KD: Kind, const N: usize> MapEng<'c, KD, N> {
         let nv = |i: usize| KD::vnorm(base | ((i as u32) << 5) | 0x10);
         let m = &mut slot.c.m;
         let mut idx = 0usize;
+        // under C09 nothing is written through the references: the call is a pure look-up, and
+        // the order of iteration has to be what it was
+        let nowrite = cx.armed == Prop::C09;
         let mut conv = |o: Option<&mut KD::V>| {
             let i = idx;
             idx += 1;
             o.map(|v| {
                 let t = (addr(v), KD::vval(v), KD::vid(v));
-                KD::vset(v, nv(i));
+                if !nowrite {
+                    KD::vset(v, nv(i));
+                }
                 t
             })
         };
@@ -440,7 +445,7 @@ impl<'c, KD: Kind, const N: usize> MapEng<'c, KD, N> {
                 }
                 if !liar {
                     for i in 0..J {
-                        if res[i].is_some() {
+                        if res[i].is_some() && !nowrite {
                             if let Some(e) = slot.model.get_mut(&keys[i]) {
                                 e.val = nv(i);
                             }
